@@ -22,6 +22,13 @@ impl InlineExpander {
             return None;
         }
 
+        // parameters are replaced by the argument expressions themselves, so an argument
+        // may end up evaluated twice, never, or in a different order: only arguments whose
+        // evaluation cannot be observed (literals, variable reads) may be substituted
+        if !args.iter().all(Self::is_atomic_arg) {
+            return None;
+        }
+
         let param_map: HashMap<String, TypedExpr> = func
             .params
             .iter()
@@ -30,6 +37,19 @@ impl InlineExpander {
             .collect();
 
         self.try_simple_inline(&func.body, &param_map, call_span)
+    }
+
+    fn is_atomic_arg(expr: &TypedExpr) -> bool {
+        match &expr.kind {
+            TypedExprKind::Int(_)
+            | TypedExprKind::Float(_)
+            | TypedExprKind::Bool(_)
+            | TypedExprKind::String(_)
+            | TypedExprKind::Null
+            | TypedExprKind::Identifier(_) => true,
+            TypedExprKind::Grouping(inner) => Self::is_atomic_arg(inner),
+            _ => false,
+        }
     }
 
     fn try_simple_inline(
